@@ -8,6 +8,9 @@ C12 — helper lemmas for `Props/C12.lean`: injectivity of the hasher operations
 * tree level: `tree_inj` / `treeL_inj` — two chunk trees of the same shape, whose raw `PutBytes`
   leaves agree in length and whose data satisfies `Tree.sized`, leave different chunks in the hasher
   buffer unless they are equal.
+* schema level: `resolve_shape` / `resolveL_shape` — two instantiations (`Sch.resolve`) of the same
+  `wfLegacy` schema are one tree each, of the same shape (`Tree.shapeEq`); trees read through a `wf`
+  schema have no raw leaf and satisfy the structural half of `sized` (`resolve_struct`).
 -/
 import CharonV.Model.SszSchema
 open CharonV.Ssz
@@ -592,4 +595,524 @@ termination_by sizeOf ts
 end
 
 end Merkle
+/-! ### schemas: two instantiations of one schema have the same shape -/
+
+theorem shapeEqL_nil_left (us : List Tree) : Tree.shapeEqL [] us = true := by
+  cases us <;> simp [Tree.shapeEqL]
+
+theorem shapeEqL_nil_right (ts : List Tree) : Tree.shapeEqL ts [] = true := by
+  cases ts <;> simp [Tree.shapeEqL]
+
+theorem exceptConcat_cons_ok {α} {r : Except Err (List α)} {rs : List (Except Err (List α))} {c : List α}
+    (hx : exceptConcat (r :: rs) = .ok c) : ∃ a b, r = .ok a ∧ exceptConcat rs = .ok b ∧ c = a ++ b := by
+  cases r with
+  | error e => simp [exceptConcat] at hx
+  | ok a =>
+    simp only [exceptConcat] at hx
+    cases h2 : exceptConcat rs with
+    | error e => simp [h2] at hx
+    | ok b => simp [h2] at hx; exact ⟨a, b, rfl, rfl, hx.symm⟩
+
+theorem resolveL_single_ok {b : Sch} {env : List Val} {a : List Tree} (hx : Sch.resolveL [b] env = .ok a) :
+    b.resolve env = .ok a := by
+  rw [Sch.resolveL, Sch.resolveL] at hx
+  cases h1 : b.resolve env with
+  | error e => simp [h1] at hx
+  | ok x => simp [h1] at hx; rw [hx]
+
+/-- loop bodies that resolve to one tree each give pointwise same-shaped element lists. -/
+theorem loop_shape (b : Sch)
+    (P : ∀ e1 e2 ts us, b.resolve e1 = .ok ts → b.resolve e2 = .ok us →
+      ∃ t u, ts = [t] ∧ us = [u] ∧ t.shapeEq u = true)
+    (env1 env2 : List Val) : ∀ (vs ws : List Val) (ts us : List Tree),
+    exceptConcat (vs.map (fun v => Sch.resolveL [b] (v :: env1))) = .ok ts →
+    exceptConcat (ws.map (fun w => Sch.resolveL [b] (w :: env2))) = .ok us →
+    Tree.shapeEqL ts us = true
+  | [], _, ts, us, h1, _ => by
+    simp [exceptConcat] at h1; subst h1; exact shapeEqL_nil_left us
+  | _ :: _, [], ts, us, _, h2 => by
+    simp [exceptConcat] at h2; subst h2; exact shapeEqL_nil_right ts
+  | v :: vs, w :: ws, ts, us, h1, h2 => by
+    simp only [List.map_cons] at h1 h2
+    obtain ⟨a, c, ha, hc, rfl⟩ := exceptConcat_cons_ok h1
+    obtain ⟨a', c', ha', hc', rfl⟩ := exceptConcat_cons_ok h2
+    obtain ⟨t, u, rfl, rfl, hs⟩ := P _ _ _ _ (resolveL_single_ok ha) (resolveL_single_ok ha')
+    simp only [List.cons_append, List.nil_append, Tree.shapeEqL, hs, Bool.true_and]
+    exact loop_shape b P env1 env2 vs ws c c' hc hc'
+
+
+theorem resolveL_cons_ok {s : Sch} {ss : List Sch} {env : List Val} {c : List Tree}
+    (hx : Sch.resolveL (s :: ss) env = .ok c) :
+    ∃ a b, s.resolve env = .ok a ∧ Sch.resolveL ss env = .ok b ∧ c = a ++ b := by
+  rw [Sch.resolveL] at hx
+  cases h1 : s.resolve env with
+  | error e => simp [h1] at hx
+  | ok a =>
+    cases h2 : Sch.resolveL ss env with
+    | error e => simp [h1, h2] at hx
+    | ok b => simp [h1, h2] at hx; exact ⟨a, b, rfl, rfl, hx.symm⟩
+
+mutual
+/-- Two instantiations of the same (legacy-)well-formed schema node are one tree each, of the same shape. -/
+theorem resolve_shape (s : Sch) (hw : s.wfLegacy = true) (e1 e2 : List Val) (ts us : List Tree)
+    (h1 : s.resolve e1 = .ok ts) (h2 : s.resolve e2 = .ok us) :
+    ∃ t u, ts = [t] ∧ us = [u] ∧ t.shapeEq u = true := by
+  cases s with
+  | raw x =>
+    rw [Sch.resolve] at h1 h2
+    split at h1 <;> simp at h1
+    split at h2 <;> simp at h2
+    subst h1; subst h2
+    exact ⟨_, _, rfl, rfl, by simp [Tree.shapeEq]⟩
+  | rawIfNonEmpty x =>
+    rw [Sch.resolve] at h1 h2
+    split at h1 <;> simp at h1
+    split at h2 <;> simp at h2
+    subst h1; subst h2
+    exact ⟨_, _, rfl, rfl, by simp [Tree.shapeEq]⟩
+  | rawNil =>
+    rw [Sch.resolve] at h1 h2
+    simp at h1 h2
+    subst h1; subst h2
+    exact ⟨_, _, rfl, rfl, by simp [Tree.shapeEq]⟩
+  | fixed n x =>
+    rw [Sch.resolve] at h1 h2
+    split at h1 <;> simp at h1
+    split at h2 <;> simp at h2
+    subst h1; subst h2
+    exact ⟨_, _, rfl, rfl, by simp [Tree.shapeEq]⟩
+  | blist n x =>
+    rw [Sch.resolve] at h1 h2
+    split at h1 <;> simp at h1
+    split at h2 <;> simp at h2
+    subst h1; subst h2
+    exact ⟨_, _, rfl, rfl, by simp [Tree.shapeEq]⟩
+  | u64 x =>
+    rw [Sch.resolve] at h1 h2
+    split at h1 <;> simp at h1
+    split at h2 <;> simp at h2
+    subst h1; subst h2
+    exact ⟨_, _, rfl, rfl, by simp [Tree.shapeEq]⟩
+  | constU64 n =>
+    rw [Sch.resolve] at h1 h2
+    simp at h1 h2
+    subst h1; subst h2
+    exact ⟨_, _, rfl, rfl, by simp [Tree.shapeEq]⟩
+  | bool x =>
+    rw [Sch.resolve] at h1 h2
+    split at h1 <;> simp at h1
+    split at h2 <;> simp at h2
+    subst h1; subst h2
+    exact ⟨_, _, rfl, rfl, by simp [Tree.shapeEq]⟩
+  | u64s n x =>
+    rw [Sch.resolve] at h1 h2
+    split at h1
+    · split at h1 <;> simp at h1
+      split at h2
+      · split at h2 <;> simp at h2
+        subst h1; subst h2
+        exact ⟨_, _, rfl, rfl, by simp [Tree.shapeEq]⟩
+      · simp at h2
+    · simp at h1
+  | sigs n x =>
+    rw [Sch.resolve] at h1 h2
+    split at h1 <;> simp at h1
+    split at h2 <;> simp at h2
+    subst h1; subst h2
+    exact ⟨_, _, rfl, rfl, by simp [Tree.shapeEq]⟩
+  | cont kids =>
+    rw [Sch.resolve] at h1 h2
+    simp only [Sch.wfLegacy] at hw
+    cases hx : Sch.resolveL kids e1 with
+    | error e => simp [hx] at h1
+    | ok a =>
+      cases hy : Sch.resolveL kids e2 with
+      | error e => simp [hy] at h2
+      | ok b =>
+        simp [hx] at h1; simp [hy] at h2; subst h1; subst h2
+        have ih := resolveL_shape kids hw e1 e2 a b hx hy
+        exact ⟨_, _, rfl, rfl, by simp [Tree.shapeEq, ih.1, ih.2]⟩
+  | seq kids =>
+    rw [Sch.resolve] at h1 h2
+    simp only [Sch.wfLegacy] at hw
+    cases hx : Sch.resolveL kids e1 with
+    | error e => simp [hx] at h1
+    | ok a =>
+      cases hy : Sch.resolveL kids e2 with
+      | error e => simp [hy] at h2
+      | ok b =>
+        simp [hx] at h1; simp [hy] at h2; subst h1; subst h2
+        have ih := resolveL_shape kids hw e1 e2 a b hx hy
+        exact ⟨_, _, rfl, rfl, by simp [Tree.shapeEq, ih.1, ih.2]⟩
+  | loop x body => simp [Sch.wfLegacy] at hw
+  | mix lim num kids =>
+    cases kids with
+    | nil => simp [Sch.wfLegacy] at hw
+    | cons k ks =>
+      cases ks with
+      | cons k2 ks2 => simp [Sch.wfLegacy] at hw
+      | nil =>
+        cases k with
+        | loop s' body =>
+          cases body with
+          | nil => simp [Sch.wfLegacy] at hw
+          | cons b bs =>
+            cases bs with
+            | cons b2 bs2 => simp [Sch.wfLegacy] at hw
+            | nil =>
+              simp only [Sch.wfLegacy, Bool.and_eq_true] at hw
+              have P : ∀ e1 e2 ts us, b.resolve e1 = .ok ts → b.resolve e2 = .ok us →
+                  ∃ t u, ts = [t] ∧ us = [u] ∧ t.shapeEq u = true :=
+                fun e1 e2 ts us q1 q2 => resolve_shape b hw.2 e1 e2 ts us q1 q2
+              rw [Sch.resolve] at h1 h2
+              cases hn1 : num.list e1 with
+              | error e => simp [hn1] at h1
+              | ok vs =>
+                cases hn2 : num.list e2 with
+                | error e => simp [hn2] at h2
+                | ok ws =>
+                  cases hx : Sch.resolveL [.loop s' [b]] e1 with
+                  | error e => simp [hn1, hx] at h1
+                  | ok a =>
+                    cases hy : Sch.resolveL [.loop s' [b]] e2 with
+                    | error e => simp [hn2, hy] at h2
+                    | ok a' =>
+                      simp [hn1, hx] at h1; simp [hn2, hy] at h2; subst h1; subst h2
+                      have hx' := resolveL_single_ok hx
+                      have hy' := resolveL_single_ok hy
+                      rw [Sch.resolve] at hx' hy'
+                      cases hl1 : s'.list e1 with
+                      | error e => simp [hl1] at hx'
+                      | ok vs' =>
+                        cases hl2 : s'.list e2 with
+                        | error e => simp [hl2] at hy'
+                        | ok ws' =>
+                          simp only [hl1] at hx'; simp only [hl2] at hy'
+                          have := loop_shape b P e1 e2 vs' ws' a a' hx' hy'
+                          exact ⟨_, _, rfl, rfl, by simp [Tree.shapeEq, this]⟩
+        | _ => simp [Sch.wfLegacy] at hw
+termination_by sizeOf s
+
+theorem resolveL_shape (ss : List Sch) (hw : Sch.wfLegacyL ss = true) (e1 e2 : List Val) (ts us : List Tree)
+    (h1 : Sch.resolveL ss e1 = .ok ts) (h2 : Sch.resolveL ss e2 = .ok us) :
+    ts.length = us.length ∧ Tree.shapeEqL ts us = true := by
+  match ss, hw, h1, h2 with
+  | [], _, h1, h2 =>
+    rw [Sch.resolveL] at h1 h2
+    simp at h1 h2; subst h1; subst h2
+    exact ⟨rfl, by simp [Tree.shapeEqL]⟩
+  | s :: ss', hw, h1, h2 =>
+    simp only [Sch.wfLegacyL, Bool.and_eq_true] at hw
+    obtain ⟨a, b, ha, hb, rfl⟩ := resolveL_cons_ok h1
+    obtain ⟨a', b', ha', hb', rfl⟩ := resolveL_cons_ok h2
+    obtain ⟨t, u, rfl, rfl, hs⟩ := resolve_shape s hw.1 e1 e2 a a' ha ha'
+    have ih := resolveL_shape ss' hw.2 e1 e2 b b' hb hb'
+    exact ⟨by simp [ih.1], by simp [Tree.shapeEqL, hs, ih.2]⟩
+termination_by sizeOf ss
+end
+
+/-! ### well-formed schemas: structural side conditions hold by construction -/
+
+mutual
+theorem sized_of_parts (t : Tree) (hd : t.sizedData = true) (hs : t.sizedStruct = true) : t.sized = true := by
+  cases t with
+  | raw b => simp [Tree.sized]
+  | fixed n b => simpa [Tree.sized, Tree.sizedData] using hd
+  | blist m b => simpa [Tree.sized, Tree.sizedData] using hd
+  | u64 n => simpa [Tree.sized, Tree.sizedData] using hd
+  | bool b => simp [Tree.sized]
+  | u64s m xs => simpa [Tree.sized, Tree.sizedData] using hd
+  | sigs m b => simpa [Tree.sized, Tree.sizedData] using hd
+  | cont ks =>
+    simp only [Tree.sized, Tree.sizedData, Tree.sizedStruct] at *
+    exact sizedL_of_parts ks hd hs
+  | seq ks =>
+    simp only [Tree.sized, Tree.sizedData, Tree.sizedStruct] at *
+    exact sizedL_of_parts ks hd hs
+  | mix l n ks =>
+    simp only [Tree.sized, Tree.sizedData, Tree.sizedStruct, Bool.and_eq_true] at *
+    exact ⟨⟨⟨hs.1.1, hd.1⟩, hs.1.2⟩, sizedL_of_parts ks hd.2 hs.2⟩
+termination_by sizeOf t
+theorem sizedL_of_parts (ts : List Tree) (hd : Tree.sizedDataL ts = true) (hs : Tree.sizedStructL ts = true) :
+    Tree.sizedL ts = true := by
+  match ts, hd, hs with
+  | [], _, _ => simp [Tree.sizedL]
+  | t :: ts', hd, hs =>
+    simp only [Tree.sizedL, Tree.sizedDataL, Tree.sizedStructL, Bool.and_eq_true] at *
+    exact ⟨sized_of_parts t hd.1 hs.1, sizedL_of_parts ts' hd.2 hs.2⟩
+termination_by sizeOf ts
+end
+
+mutual
+theorem rawAgree_of_noRaw (t u : Tree) (hn : t.noRaw = true) : t.rawAgree u = true := by
+  cases t with
+  | raw b => simp [Tree.noRaw] at hn
+  | cont ks =>
+    cases u with
+    | cont ls => simp only [Tree.rawAgree]; exact rawAgreeL_of_noRaw ks ls (by simpa [Tree.noRaw] using hn)
+    | _ => simp [Tree.rawAgree]
+  | seq ks =>
+    cases u with
+    | seq ls => simp only [Tree.rawAgree]; exact rawAgreeL_of_noRaw ks ls (by simpa [Tree.noRaw] using hn)
+    | _ => simp [Tree.rawAgree]
+  | mix l n ks =>
+    cases u with
+    | mix l' n' ls => simp only [Tree.rawAgree]; exact rawAgreeL_of_noRaw ks ls (by simpa [Tree.noRaw] using hn)
+    | _ => simp [Tree.rawAgree]
+  | fixed n b => cases u <;> simp [Tree.rawAgree]
+  | blist n b => cases u <;> simp [Tree.rawAgree]
+  | u64 n => cases u <;> simp [Tree.rawAgree]
+  | bool b => cases u <;> simp [Tree.rawAgree]
+  | u64s n b => cases u <;> simp [Tree.rawAgree]
+  | sigs n b => cases u <;> simp [Tree.rawAgree]
+termination_by sizeOf t
+theorem rawAgreeL_of_noRaw (ts us : List Tree) (hn : Tree.noRawL ts = true) : Tree.rawAgreeL ts us = true := by
+  match ts, us, hn with
+  | [], _, _ => cases us <;> simp [Tree.rawAgreeL]
+  | _ :: _, [], _ => simp [Tree.rawAgreeL]
+  | t :: ts', u :: us', hn =>
+    simp only [Tree.noRawL, Bool.and_eq_true] at hn
+    simp only [Tree.rawAgreeL, Bool.and_eq_true]
+    exact ⟨rawAgree_of_noRaw t u hn.1, rawAgreeL_of_noRaw ts' us' hn.2⟩
+termination_by sizeOf ts
+end
+
+mutual
+theorem wfLegacy_of_wf (s : Sch) (hw : s.wf = true) : s.wfLegacy = true := by
+  cases s with
+  | raw x => simp [Sch.wf] at hw
+  | rawIfNonEmpty x => simp [Sch.wf] at hw
+  | rawNil => simp [Sch.wf] at hw
+  | loop x b => simp [Sch.wf] at hw
+  | cont ks => simp only [Sch.wf, Sch.wfLegacy] at *; exact wfLegacyL_of_wfL ks hw
+  | seq ks => simp only [Sch.wf, Sch.wfLegacy] at *; exact wfLegacyL_of_wfL ks hw
+  | mix lim num kids =>
+    cases lim with
+    | num => cases kids <;> simp [Sch.wf] at hw
+    | const c =>
+    cases kids with
+    | nil => simp [Sch.wf] at hw
+    | cons k ks =>
+      cases ks with
+      | cons k2 ks2 => simp [Sch.wf] at hw
+      | nil =>
+        cases k with
+        | loop s' body =>
+          cases body with
+          | nil => simp [Sch.wf] at hw
+          | cons b bs =>
+            cases bs with
+            | cons b2 bs2 => simp [Sch.wf] at hw
+            | nil =>
+              simp only [Sch.wf, Sch.wfLegacy, Bool.and_eq_true] at *
+              exact ⟨⟨hw.2.1.1.1, hw.2.1.1.2⟩, wfLegacy_of_wf b hw.2.2⟩
+        | _ => simp [Sch.wf] at hw
+  | _ => simp [Sch.wfLegacy]
+termination_by sizeOf s
+theorem wfLegacyL_of_wfL (ss : List Sch) (hw : Sch.wfL ss = true) : Sch.wfLegacyL ss = true := by
+  match ss, hw with
+  | [], _ => simp [Sch.wfLegacyL]
+  | s :: ss', hw =>
+    simp only [Sch.wfL, Sch.wfLegacyL, Bool.and_eq_true] at *
+    exact ⟨wfLegacy_of_wf s hw.1, wfLegacyL_of_wfL ss' hw.2⟩
+termination_by sizeOf ss
+end
+
+
+theorem sizedStructL_append : ∀ {a b : List Tree}, Tree.sizedStructL a = true → Tree.sizedStructL b = true →
+    Tree.sizedStructL (a ++ b) = true
+  | [], _, _, hb => by simpa using hb
+  | t :: a, b, ha, hb => by
+    simp only [Tree.sizedStructL, Bool.and_eq_true, List.cons_append] at *
+    exact ⟨ha.1, sizedStructL_append ha.2 hb⟩
+
+theorem noRawL_append : ∀ {a b : List Tree}, Tree.noRawL a = true → Tree.noRawL b = true →
+    Tree.noRawL (a ++ b) = true
+  | [], _, _, hb => by simpa using hb
+  | t :: a, b, ha, hb => by
+    simp only [Tree.noRawL, Bool.and_eq_true, List.cons_append] at *
+    exact ⟨ha.1, noRawL_append ha.2 hb⟩
+
+theorem Src.list_congr (a b : Src) (hv : a.var = b.var) (hp : a.path = b.path) (env : List Val) :
+    a.list env = b.list env := by
+  unfold Src.list Src.get
+  rw [hv, hp]
+
+theorem resolve_single (s : Sch) (hs : s.single = true) (env : List Val) (ts : List Tree)
+    (h1 : s.resolve env = .ok ts) : ∃ t, ts = [t] ∧ t.single = true := by
+  cases s with
+  | raw x => simp [Sch.single] at hs
+  | rawIfNonEmpty x => simp [Sch.single] at hs
+  | rawNil => simp [Sch.single] at hs
+  | loop x b => simp [Sch.single] at hs
+  | seq ks => simp [Sch.single] at hs
+  | fixed n x =>
+    rw [Sch.resolve] at h1
+    split at h1 <;> simp at h1
+    subst h1
+    exact ⟨_, rfl, by simpa [Tree.single, Sch.single] using hs⟩
+  | blist n x =>
+    rw [Sch.resolve] at h1
+    split at h1 <;> simp at h1
+    subst h1; exact ⟨_, rfl, rfl⟩
+  | u64 x =>
+    rw [Sch.resolve] at h1
+    split at h1 <;> simp at h1
+    subst h1; exact ⟨_, rfl, rfl⟩
+  | constU64 n =>
+    rw [Sch.resolve] at h1
+    simp at h1
+    subst h1; exact ⟨_, rfl, rfl⟩
+  | bool x =>
+    rw [Sch.resolve] at h1
+    split at h1 <;> simp at h1
+    subst h1; exact ⟨_, rfl, rfl⟩
+  | u64s n x =>
+    rw [Sch.resolve] at h1
+    split at h1
+    · split at h1 <;> simp at h1
+      subst h1; exact ⟨_, rfl, rfl⟩
+    · simp at h1
+  | sigs n x =>
+    rw [Sch.resolve] at h1
+    split at h1 <;> simp at h1
+    subst h1; exact ⟨_, rfl, rfl⟩
+  | cont ks =>
+    rw [Sch.resolve] at h1
+    split at h1 <;> simp at h1
+    subst h1; exact ⟨_, rfl, rfl⟩
+  | mix lim num ks =>
+    rw [Sch.resolve] at h1
+    split at h1 <;> simp at h1
+    subst h1; exact ⟨_, rfl, rfl⟩
+
+theorem loop_struct (b : Sch) (hsingle : b.single = true)
+    (P : ∀ e ts, b.resolve e = .ok ts → Tree.sizedStructL ts = true ∧ Tree.noRawL ts = true)
+    (env : List Val) : ∀ (vs : List Val) (ts : List Tree),
+    exceptConcat (vs.map (fun v => Sch.resolveL [b] (v :: env))) = .ok ts →
+    ts.length = vs.length ∧ ts.all Tree.single = true ∧ Tree.sizedStructL ts = true ∧ Tree.noRawL ts = true
+  | [], ts, h1 => by
+    simp [exceptConcat] at h1; subst h1
+    simp [Tree.sizedStructL, Tree.noRawL]
+  | v :: vs, ts, h1 => by
+    simp only [List.map_cons] at h1
+    obtain ⟨a, c, ha, hc, rfl⟩ := exceptConcat_cons_ok h1
+    have hr := resolveL_single_ok ha
+    obtain ⟨t, rfl, hst⟩ := resolve_single b hsingle _ _ hr
+    have p := P _ _ hr
+    have ih := loop_struct b hsingle P env vs c hc
+    simp only [Tree.sizedStructL, Tree.noRawL, Bool.and_true] at p
+    simp only [List.cons_append, List.nil_append, List.length_cons, List.all_cons, Tree.sizedStructL, Tree.noRawL,
+      Bool.and_eq_true]
+    exact ⟨by rw [ih.1], ⟨hst, ih.2.1⟩, ⟨p.1, ih.2.2.1⟩, ⟨p.2, ih.2.2.2⟩⟩
+
+mutual
+/-- trees read through a well-formed schema satisfy the structural half of `sized` and have no raw leaf. -/
+theorem resolve_struct (s : Sch) (hw : s.wf = true) (env : List Val) (ts : List Tree)
+    (h1 : s.resolve env = .ok ts) : Tree.sizedStructL ts = true ∧ Tree.noRawL ts = true := by
+  cases s with
+  | raw x => simp [Sch.wf] at hw
+  | rawIfNonEmpty x => simp [Sch.wf] at hw
+  | rawNil => simp [Sch.wf] at hw
+  | loop x b => simp [Sch.wf] at hw
+  | fixed n x =>
+    rw [Sch.resolve] at h1
+    split at h1 <;> simp at h1
+    subst h1; simp [Tree.sizedStructL, Tree.noRawL, Tree.sizedStruct, Tree.noRaw]
+  | blist n x =>
+    rw [Sch.resolve] at h1
+    split at h1 <;> simp at h1
+    subst h1; simp [Tree.sizedStructL, Tree.noRawL, Tree.sizedStruct, Tree.noRaw]
+  | u64 x =>
+    rw [Sch.resolve] at h1
+    split at h1 <;> simp at h1
+    subst h1; simp [Tree.sizedStructL, Tree.noRawL, Tree.sizedStruct, Tree.noRaw]
+  | constU64 n =>
+    rw [Sch.resolve] at h1
+    simp at h1
+    subst h1; simp [Tree.sizedStructL, Tree.noRawL, Tree.sizedStruct, Tree.noRaw]
+  | bool x =>
+    rw [Sch.resolve] at h1
+    split at h1 <;> simp at h1
+    subst h1; simp [Tree.sizedStructL, Tree.noRawL, Tree.sizedStruct, Tree.noRaw]
+  | u64s n x =>
+    rw [Sch.resolve] at h1
+    split at h1
+    · split at h1 <;> simp at h1
+      subst h1; simp [Tree.sizedStructL, Tree.noRawL, Tree.sizedStruct, Tree.noRaw]
+    · simp at h1
+  | sigs n x =>
+    rw [Sch.resolve] at h1
+    split at h1 <;> simp at h1
+    subst h1; simp [Tree.sizedStructL, Tree.noRawL, Tree.sizedStruct, Tree.noRaw]
+  | cont ks =>
+    rw [Sch.resolve] at h1
+    simp only [Sch.wf] at hw
+    cases hx : Sch.resolveL ks env with
+    | error e => simp [hx] at h1
+    | ok a =>
+      simp [hx] at h1; subst h1
+      have ih := resolveL_struct ks hw env a hx
+      simp [Tree.sizedStructL, Tree.noRawL, Tree.sizedStruct, Tree.noRaw, ih.1, ih.2]
+  | seq ks =>
+    rw [Sch.resolve] at h1
+    simp only [Sch.wf] at hw
+    cases hx : Sch.resolveL ks env with
+    | error e => simp [hx] at h1
+    | ok a =>
+      simp [hx] at h1; subst h1
+      have ih := resolveL_struct ks hw env a hx
+      simp [Tree.sizedStructL, Tree.noRawL, Tree.sizedStruct, Tree.noRaw, ih.1, ih.2]
+  | mix lim num kids =>
+    cases lim with
+    | num => cases kids <;> simp [Sch.wf] at hw
+    | const c =>
+    cases kids with
+    | nil => simp [Sch.wf] at hw
+    | cons k ks =>
+      cases ks with
+      | cons k2 ks2 => simp [Sch.wf] at hw
+      | nil =>
+        cases k with
+        | loop s' body =>
+          cases body with
+          | nil => simp [Sch.wf] at hw
+          | cons b bs =>
+            cases bs with
+            | cons b2 bs2 => simp [Sch.wf] at hw
+            | nil =>
+              simp only [Sch.wf, Bool.and_eq_true, Bool.true_and, beq_iff_eq] at hw
+              have P : ∀ e ts, b.resolve e = .ok ts → Tree.sizedStructL ts = true ∧ Tree.noRawL ts = true :=
+                fun e ts q => resolve_struct b hw.2 e ts q
+              rw [Sch.resolve] at h1
+              cases hn1 : num.list env with
+              | error e => simp [hn1] at h1
+              | ok vs =>
+                cases hx : Sch.resolveL [.loop s' [b]] env with
+                | error e => simp [hn1, hx] at h1
+                | ok a =>
+                  simp [hn1, hx] at h1; subst h1
+                  have hx' := resolveL_single_ok hx
+                  rw [Sch.resolve, Src.list_congr s' num hw.1.1.1 hw.1.1.2 env, hn1] at hx'
+                  simp only at hx'
+                  have ls := loop_struct b hw.1.2 P env vs a hx'
+                  simp [Tree.sizedStructL, Tree.noRawL, Tree.sizedStruct, Tree.noRaw, ls.1, ls.2.1, ls.2.2.1, ls.2.2.2]
+        | _ => simp [Sch.wf] at hw
+termination_by sizeOf s
+theorem resolveL_struct (ss : List Sch) (hw : Sch.wfL ss = true) (env : List Val) (ts : List Tree)
+    (h1 : Sch.resolveL ss env = .ok ts) : Tree.sizedStructL ts = true ∧ Tree.noRawL ts = true := by
+  match ss, hw, h1 with
+  | [], _, h1 =>
+    rw [Sch.resolveL] at h1
+    simp at h1; subst h1
+    simp [Tree.sizedStructL, Tree.noRawL]
+  | s :: ss', hw, h1 =>
+    simp only [Sch.wfL, Bool.and_eq_true] at hw
+    obtain ⟨a, b, ha, hb, rfl⟩ := resolveL_cons_ok h1
+    have i1 := resolve_struct s hw.1 env a ha
+    have i2 := resolveL_struct ss' hw.2 env b hb
+    exact ⟨sizedStructL_append i1.1 i2.1, noRawL_append i1.2 i2.2⟩
+termination_by sizeOf ss
+end
+
 end CharonV.Ssz
